@@ -78,16 +78,34 @@ fn explicit_names(ctx: &Context, sys: &TransitionSystem) -> Option<(Vec<String>,
     let ins: Vec<String> = sys.inputs.iter().map(|i| ctx.get_symbol_name(*i).unwrap_or("").to_string()).collect();
     let sts: Vec<String> = sys.states.iter().map(|s| ctx.get_symbol_name(s.symbol).unwrap_or("").to_string()).collect();
     let outs: Vec<String> = sys.outputs.iter().map(|o| ctx[o.name].to_string()).collect();
+    // distinct: no two inputs/states share a name, no two outputs share a name, and an output may carry
+    // the name of an input or state only if it is a label on exactly that symbol (this is how a btor2
+    // file names an otherwise anonymous state, and what the reader produces for `output <state> <name>`)
     let mut all: Vec<&String> = ins.iter().chain(sts.iter()).chain(outs.iter()).collect();
     if all.iter().any(|n| n.is_empty() || auto(n)) {
         return None;
     }
-    let n = all.len();
-    all.sort();
-    all.dedup();
-    if all.len() != n {
+    let mut syms: Vec<&String> = ins.iter().chain(sts.iter()).collect();
+    let n = syms.len();
+    syms.sort();
+    syms.dedup();
+    if syms.len() != n {
         return None;
     }
+    let mut os: Vec<&String> = outs.iter().collect();
+    let n = os.len();
+    os.sort();
+    os.dedup();
+    if os.len() != n {
+        return None;
+    }
+    for o in sys.outputs.iter() {
+        let name = ctx[o.name].to_string();
+        if syms.contains(&&name) && ctx.get_symbol_name(o.expr) != Some(name.as_str()) {
+            return None;
+        }
+    }
+    all.clear();
     Some((ins, sts, outs))
 }
 
@@ -216,6 +234,7 @@ impl Prop for C09 {
             max_input_bits: 4,
             wide_states: true,
             divrem: true,
+            many_outputs: true,
             ..SysCfg::default()
         };
         let mut case = gen_system(&mut t, &cfg);
